@@ -50,12 +50,31 @@ def needs_of(notes):
     return " ".join(m.group(2).split())[:600] if m else ""
 
 
+ROUND3 = {   # by code area; property = the one the author names first
+ "A-1": ("C08", "unbounded-test-after-visited-skip"), "A-2": ("C02", "regex-input-equality-ignores-description"),
+ "B-1": ("C02", "dfa-hash-ignores-inputs"), "B-2": ("C08", "conflict-check-compares-disjoint-pairs"),
+ "C-1": ("C04", "shape-test-ignores-level-tables"), "C-2": ("C10", "std-hashmap-in-zsh-emitter"),
+ "D-1": ("C14", "empty-comment-not-skipped"), "D-2": ("C02", "flatten-merges-alternative-and-fallback-arms"),
+ "E-1": ("C06", "destination-opened-before-automaton-checks"), "E-2": ("C15", "unused-specialization-warning-filtered"),
+ "F-1": ("C08", "subword-spaces-check-memoised-by-name"), "F-2": ("C01", "wordbreak-first-occurrence"),
+}
+
+
+CLAIMS = {"R3-B-1": ["C02", "C01", "C04"], "R3-A-2": ["C02", "C04", "C16"], "R3-D-1": ["C05", "C14"], "R3-D-2": ["C02", "C01"], "R3-C-1": ["C04", "C01"],
+          "R3-F-2": ["C01", "C12", "C17"], "C04-2": ["C04", "C07"], "C14-2": ["C14"], "C11-1": ["C11", "C04", "C17"], "C10-2": ["C10"]}
+
+
 def main():
     logs = parse_logs()
     extra = json.load(open("/verif/tools/round2_notes.json")) if os.path.exists("/verif/tools/round2_notes.json") else {}
+    todo = []
     for key, slug in sorted(SLUG.items()):
         prop, n = key.split("-")
-        src = "/tmp/mut2-%s/scratch/mutant%s" % (prop, n)
+        todo.append((key, prop, n, slug, "/tmp/mut2-%s/scratch/mutant%s" % (prop, n), "%sr2-m%s-%s" % (prop, n, slug), 2))
+    for key, (prop, slug) in sorted(ROUND3.items()):
+        area, n = key.split("-")
+        todo.append(("R3-" + key, prop, n, slug, "/tmp/mut3-%s/scratch/mutant%s" % (area, n), "R3%s-m%s-%s" % (area, n, slug), 3))
+    for key, prop, n, slug, src, mid, rnd in todo:
         if not os.path.isdir(src):
             print("missing", src)
             continue
@@ -65,7 +84,6 @@ def main():
             continue
         notes = open(os.path.join(src, "notes.md"), errors="replace").read() if os.path.exists(os.path.join(src, "notes.md")) else ""
         title = re.sub(r"^#+\s*(C\d\d\s*)?[Mm]utant\s*\d\s*[-:—]+\s*", "", notes.split("\n")[0]).strip()
-        mid = "%sr2-m%s-%s" % (prop, n, slug)
         dst = os.path.join("/verif/seeded", mid)
         os.makedirs(dst, exist_ok=True)
         for f in os.listdir(src):
@@ -78,12 +96,13 @@ def main():
                 caught[chk] = ("MISSED by the quick tier at first (exit 0); after the strengthening described in `remark`: " if r.get("missed_before") else "") + \
                     "yes: %d VIOLATION lines; first: %s" % (r["violations"], r["first"])
             elif r["exit"] == 0:
-                caught[chk] = "MISSED by the quick tier (exit 0)"
+                claimed = CLAIMS.get(key, [prop])
+                caught[chk] = "MISSED by the quick tier (exit 0)" if chk in claimed else "nothing reported (exit 0); run as a neighbouring check, the author does not claim this property is broken"
             else:
                 caught[chk] = "tool error (exit %d)" % r["exit"]
         for chk, txt in extra.get(key, {}).get("caught_by", {}).items():
             caught[chk] = (caught.get(chk, "") + "; " if chk in caught else "") + txt
-        meta = {"id": mid, "property": prop, "round": 2,
+        meta = {"id": mid, "property": prop, "round": rnd,
                 "confirmed": {"tests_with_patch": "59 passed", "demo_on_original": 0, "demo_on_patched": "non-zero"},
                 "ran": "tools/mutant.py confirm + check --tier quick (scratch worktree via VERIF_REPO)",
                 "what": extra.get(key, {}).get("what", title), "needs": extra.get(key, {}).get("needs", needs_of(notes)), "caught_by": caught}
